@@ -39,6 +39,21 @@ Wanted(g, root) == ToSet(Pre(g, root)) \ {0}
 Missing(log, g, root) == {n \in Wanted(g, root) : Count(log, n) = 0}
 Repeated(log, g, root) == {n \in Wanted(g, root) : Count(log, n) > 1}
 EachOnce(log, g, root) == Missing(log, g, root) = {} /\ Repeated(log, g, root) = {}
+\* property clause: what is visited is a node.  "Visit every node exactly once" makes the visits and the nodes correspond
+\* one to one: a callback whose argument is a nil pointer wrapped in a non-nil ast.Node (logged as -1: the nil child
+\* of some node, e.g. the absent text of an empty raw statement) is a visit of something that is not a node of any
+\* tree - Walk's documentation: "on all children other than nil".  Reading chosen for -2 (a node that is not in the
+\* graph of this tree, such as a node of the expanded tree of another file): not excluded by the statement, diagnostic.
+NonNodes(log) == {i \in 1..Len(log) : log[i] = -1}
+OnlyNodes(log) == NonNodes(log) = {}
+\* the callback that is "open" when callback i is made: the last earlier visit whose nil "exit" call has not come yet
+\* (0: none) - the node among whose children the walk found what it visits at i
+RECURSIVE OpenBefore(_, _, _)
+OpenBefore(log, j, closed) ==
+  IF j = 0 THEN 0
+  ELSE IF log[j] = 0 THEN OpenBefore(log, j - 1, closed + 1)
+  ELSE IF closed = 0 THEN j ELSE OpenBefore(log, j - 1, closed - 1)
+OpenAt(log, i) == OpenBefore(log, i - 1, 0)
 \* the edge (visiting node, field) through which a node should have been reached
 EdgeTo(g, root, n) ==
   LET E == {<<i, x>> \in (Wanted(g, root) \X (1..8)) : x <= Len(g.nodes[i].f) /\ g.nodes[i].f[x].m # "xref"
@@ -86,6 +101,8 @@ ChangeOf(before, after) == LET d == DiffOf(before.nodes, after.nodes) IN IF d = 
 
 (* ---------- model: a correct Clone (fresh identities, equal shape) and two broken ones ---------- *)
 MaxPid(g) == IF g.pids = <<>> THEN 0 ELSE CHOOSE m \in ToSet(g.pids) : \A x \in ToSet(g.pids) : x <= m
+\* a walk that also "visits" a nil child: a -1 callback and its exit call right after the first callback
+Spurious(log) == <<log[1], 0 - 1, 0>> \o SubSeq(log, 2, Len(log))
 ModelClone(g) == [nodes |-> g.nodes, pids |-> [i \in 1..Len(g.pids) |-> g.pids[i] + MaxPid(g)]]
 ShallowClone(g) == [nodes |-> g.nodes, pids |-> [i \in 1..Len(g.pids) |-> IF i = 1 THEN g.pids[i] + MaxPid(g) ELSE g.pids[i]]]
 =============================================================================
